@@ -8,7 +8,7 @@ import sys
 
 VERIF = os.path.dirname(os.path.dirname(os.path.abspath(__file__)))
 seed = os.path.abspath(sys.argv[1])
-name = os.path.basename(seed).replace("seed2_", "R2_").replace("seed_", "")
+name = os.path.basename(seed).replace("seed2_", "R2_").replace("seed3_", "R3_").replace("seed_", "")
 meta = json.load(open(os.path.join(seed, "meta.json")))
 chk = json.load(open("/tmp/seedtests/%s.check.json" % os.path.basename(seed)))
 res_file = "/tmp/seedtests/%s.result" % name
